@@ -46,7 +46,9 @@ def test_dir():
 
 
 def list_files():
-    return sorted(f for f in os.listdir(test_dir()) if f.endswith(".f90"))
+    # algorithm files only: the kernel modules (*_mod.f90) live alongside
+    return sorted(f for f in os.listdir(test_dir())
+                  if f.endswith(".f90") and not f.endswith("_mod.f90"))
 
 
 # ------------------------------------------------------------ schedule metadata
@@ -146,17 +148,30 @@ def alphabet(nloops, nhex):
 
 
 def histories(nloops, nhex, maxlen, nsample, rnd):
-    '''All histories of length <= 1 and, for every longer length up to maxlen,
-    either all of them or a deterministic sample of nsample.'''
+    '''All histories of length <= 1; of the longer ones (up to maxlen) a
+    deterministic sample: up to 4*nsample pairs of redundant-computation steps
+    on two different loops (they decide which exchanges exist and how deep)
+    plus nsample of the others, per length.  nsample None = all.'''
     ops = alphabet(nloops, nhex)
     # one more halo-exchange index: redundant computation can add exchanges
     ops2 = ops + [("async", nhex)]
     res = [()] + [(o,) for o in ops]
+    if maxlen < 2:
+        return res
     prev = [(o,) for o in ops]
     for _ in range(2, maxlen + 1):
         cur = [h + (o,) for h in prev for o in ops2 if o != h[-1]]
-        if nsample is not None and len(cur) > nsample:
-            cur = rnd.sample(cur, nsample)
+        if nsample is not None:
+            def rcrc(h):
+                return (h[-1][0] == "rc" and h[-2][0] == "rc"
+                        and h[-1][1] != h[-2][1])
+            first = [h for h in cur if rcrc(h)]
+            rest = [h for h in cur if not rcrc(h)]
+            if len(first) > 4 * nsample:
+                first = rnd.sample(first, 4 * nsample)
+            if len(rest) > nsample:
+                rest = rnd.sample(rest, nsample)
+            cur = first + rest
         res += cur
         prev = cur
     return res
@@ -236,8 +251,7 @@ def project(items, kernels, comp, classes, annexed):
             if it["kind"] == "domain" and cont == "c":
                 raise Unsupported("domain kernel with a continuous field")
             steps.append({"k": "loop", "kind": it["kind"], "ub": it["ub"],
-                          "d": it["d"], "col": it["col"], "omp": it["omp"],
-                          "allw": allw, "acc": accs})
+                          "d": it["d"], "allw": allw, "acc": accs})
         else:
             raise Unsupported("item " + k)
     return {"cont": cont, "ann": bool(annexed), "nv": len(names),
@@ -262,9 +276,10 @@ def split_subroutines(text):
 
 
 def work(job):
-    '''job = (file, maxlen, nsample, seed, want_text).  Returns a dict with the
-    projected cases of every (annexed setting, invoke, history, component).'''
-    fname, maxlen, nsample, seed, keep = job
+    '''job = (file, maxlen, nsample, seed, annexed settings).  Returns a dict
+    with the projected cases of every (annexed setting, invoke, history,
+    component).'''
+    fname, maxlen, nsample, seed, settings = job
     core.setup_psyclone_env()
     from psyclone.parse.algorithm import parse
     from psyclone.psyGen import PSyFactory
@@ -284,7 +299,7 @@ def work(job):
         out["parse_error"] = type(err).__name__
         return out
     out["invokes"] = ninv
-    for annexed in (False, True):
+    for annexed in settings:
         Config.get().api_conf("lfric")._compute_annexed_dofs = annexed
         try:
             psy0 = PSyFactory("dynamo0.3", distributed_memory=True).create(info)
@@ -313,6 +328,10 @@ def work(job):
                     out["refused"] += 1
                     continue
                 try:
+                    # the module as PSyclone writes it, restricted to the
+                    # invoke under test (the other subroutines of the file
+                    # are generated when their own histories are run)
+                    psy.invokes.invoke_list = [invoke]
                     text = str(psy.gen)
                 except Exception as err:    # noqa
                     # accepted, then refused (or crashed) at code generation:
@@ -345,8 +364,5 @@ def work(job):
                     out["cases"].append((dict(origin, field=comp),
                                          json.dumps(pc, sort_keys=True,
                                                     separators=(",", ":"))))
-                if keep and not hist:
-                    out.setdefault("texts", {})[f"{iidx}|{annexed}"] = \
-                        subs[invoke.name.lower()]
     Config.get().api_conf("lfric")._compute_annexed_dofs = False
     return out
